@@ -175,6 +175,10 @@ def c09(tier):
             for dns in (0, 1):
                 vals += [(1, dew, k, dns, k, 0, 5), (1, dew, 1, dns, k, 0, 5), (1, dew, k, dns, 1, 0, 5)]
     vals += [(1, 0, 958, 0, 599, 0, 9), (1, 1, 958, 1, 599, 0, 9), (1, 0, 599, 1, 958, 0, 9)]
+    near = json.load(open(os.path.join(os.path.dirname(os.path.abspath(__file__)), 'near_integer_pairs.json')))
+    for j, (e_, n_) in enumerate(near if tier == 'thorough' else near[::2]):
+        for dew, dns in ((0, 0), (1, 1), (0, 1), (1, 0)) if tier == 'thorough' else (((j // 2) % 2, j % 2), (1 - (j // 2) % 2, 1 - j % 2)):
+            vals.append((1, dew, e_ + 1, dns, n_ + 1, 0, 3))
     n_rand = 1500 if tier == 'quick' else 200000
     for _ in range(n_rand):
         vals.append((1 if rng.random() < 0.8 else 2, rng.getrandbits(1), rng.getrandbits(10), rng.getrandbits(1), rng.getrandbits(10),
@@ -192,6 +196,23 @@ def c09(tier):
                         vals.append((1, dew, vew, dns, vns, 1, 2))
     groups = sweep_groups(lambda v, a, r: df17(5, a, me_velocity(v[0], v[1], v[2], v[3], v[4], v[5], v[6], r.getrandbits(1), 0, 0, r.getrandbits(3))),
                           vals, OPTSETS[:3] if tier == 'quick' else OPTSETS, rng)
+    # the same values with and without -U / -R, also when a later frame carries "no information"
+    for h in range(8 if tier == 'quick' else 200):
+        a = 0x4b6000 + h
+        seq = []
+        for _ in range(14):
+            st_ = rng.choice([1, 1, 2])
+            z = rng.random()
+            vew = 0 if z < 0.15 else rng.randint(1, 1023)
+            vns = 0 if 0.1 < z < 0.25 else rng.randint(1, 1023)
+            vr = 0 if 0.2 < z < 0.4 else rng.randint(1, 511)
+            seq.append(df17(5, a, me_velocity(st_, rng.getrandbits(1), vew, rng.getrandbits(1), vns, rng.getrandbits(1), vr)))
+        o1 = rng.choice([['-U'], ['-U', '-R'], ['-R']])
+        g = [reset([], slot=0), reset(o1, slot=1)]
+        tag = {'pair': 'c09u'}
+        for l in seq:
+            g += [run1(l, slot=0, tag=tag), run1(l, slot=1, tag=tag)]
+        groups.append(g)
     conform(rep, 'C09', groups)
     rep.rule = ('TC19 subtype 1/2 frames: boundary product of component fields {0,1,2,3,511,512,1022,1023}^2 x signs, every value '
                 'of each component, all 2x512 vertical-rate codes, diagonals/axes, near-integer-degree pairs, %d random%s; as update '
@@ -250,7 +271,9 @@ def valid_squitters(rng, n):
 
 
 # ----------------------------------------------------------------------------------------- C02
-DECOR = [b'*', b'@', b';', b' ', b'\t', b'\r', b'g', b'G', b'x', b':', b'-', b'\xc3\xa9', b'\xef\xbc\x91', b'\x00']
+DECOR = [b'*', b'@', b';', b' ', b'\t', b'\r', b'g', b'G', b'x', b':', b'-', b'\xc3\xa9', b'\xef\xbc\x91', b'\x00'] + \
+        [chr(0x100 + b).encode() for b in b'09AFaf18Cc'] + [chr(0x400 + b).encode() for b in b'0Aa'] + \
+        ['\u0661'.encode(), '\u06f5'.encode(), '\uff21'.encode(), '\u2160'.encode(), '\U0001d7d8'.encode()]
 
 
 def decorate(rng, digits, k):
@@ -316,6 +339,12 @@ def c02(tier):
     for o in ([], ['-U']):
         groups += scn.groups_from_trie(trie, alpha_l, o, split_depth=1)
     rep.extra['model_transitions_replayed'] = 2 * scn.count_edges(trie)
+    # the last line of the input without a line end (also with a bare CR)
+    for v in valid:
+        for tail in ('', '\r', ';', ';\r'):
+            for opts in ([], ['-U']):
+                groups.append([reset(opts), run1(df11(5, a)), {'c': 'run', 'lines': [list(valid[2].encode()), list((v + tail).encode())], 'slot': 0, 'noeol': True},
+                               reset(opts), {'c': 'run', 'lines': [list((v + tail).encode())], 'slot': 0, 'noeol': True, 'direct': True}])
     conform(rep, 'C02', groups, maxlen=2500)
     rep.rule = ('lines: every DF 0..31 as 14- and 28-digit frame (valid parity / address overlay) with and without 12-digit '
                 'time stamp; digit counts %s cut from valid frames; %d randomly decorated / case-mixed / digit-inserted variants '
@@ -372,6 +401,15 @@ def c03(tier):
             data = pack([(dfv, 5)]) + bits_of(1 << bit, 83)
             g.append(run1(hexs(with_ap(data, a)), direct=True))
     groups.append(g)
+    # the same shuffled multi-aircraft stream one line per run and as a single run (state kept between lines of a run)
+    for k in range(12 if tier == 'quick' else 300):
+        opts = OPTSETS[k % 4]
+        acs = [0x4b5000 + rng.getrandbits(10) for _ in range(3)]
+        pool = []
+        for a_ in acs:
+            pool += other_format_frames(a_, rng) if k % 2 else [x for x in other_format_frames(a_, rng) if x[0] == '8']
+        lines = [rng.choice(pool) for _ in range(rng.randrange(8, 30))]
+        groups.append([reset(opts, slot=0), reset(opts, slot=1)] + [run1(l, slot=0) for l in lines] + [runn(lines, slot=1, tag={'pair': 'seg3'})])
     conform(rep, 'C03', groups, maxlen=2500)
     # exhaustive AP / AA sweep through the public get_icao, reduced to run-length form
     binary = vlib.build_harness('release')
@@ -584,6 +622,16 @@ def c01(tier):
                 for order in ((0, 1), (1, 0)):
                     for opts in ([], ['-U']):
                         groups.append([reset(opts), runn([fr[order[0]], fr[order[1]], fr[order[0]], list(sentinel().encode())])])
+    # random short histories of boundary-valued frames of ONE aircraft (arithmetic across frames), and sweeps with
+    # rows that are already stale (-d 0 / 1) inside one run
+    dec = [l for l in L if 14 <= len(l) <= 40 and all(c < 128 for c in l)]
+    for h_ in range(150 if tier == 'quick' else 3000):
+        seq = [rng.choice(dec) for _ in range(rng.randrange(3, 9))]
+        groups.append([reset(rng.choice([[], ['-U'], ['-R'], ['-U', '-R']])), runn(seq + [list(sentinel().encode())])])
+    for dval in ('0', '1'):
+        for opts in ([], ['-U']):
+            seq = [list(x.encode()) for x in other_format_frames(0x4d4001, rng)[:13]] + [list(x.encode()) for x in other_format_frames(0x4d4002, rng)[:13]]
+            groups.append([reset(opts + ['-d', dval]), runn(seq + [list(sentinel().encode())])])
     for k in range(10, 19):
         for o in ('-d', '-u'):
             for sgn in ('', '-'):
@@ -816,8 +864,8 @@ def c08_positions(rng, tier):
         for sgn in (1, -1):
             P.append((sgn * mid, rng.uniform(-180, 180)))
     # both sides of zone boundaries (pairs may straddle)
-    for b in (bnd if tier == 'thorough' else bnd[::6]):
-        for off in (-0.003, -0.0005, 0.0005, 0.003):
+    for b in bnd:
+        for off in ((-0.003, -0.0005, 0.0005, 0.003) if tier == 'thorough' else (-0.0004, 0.0004)):
             for sgn in (1, -1):
                 P.append((sgn * (b + off), rng.uniform(-180, 180)))
     # equator, antimeridian, prime meridian, near the poles' limit
@@ -1034,7 +1082,7 @@ def c11(tier):
             for i in range(0, len(lines), 1500):
                 groups.append([reset(opts)] + [run1(l) for l in lines[i:i + 1500]])
     # segmentation invariance: one line per reader run vs the whole history in one run
-    nseg = 10 if tier == 'quick' else 300
+    nseg = 24 if tier == 'quick' else 400
     for h in range(nseg):
         opts = OPTSETS[h % 4]
         acs = [0x4a8000 + rng.getrandbits(10) for _ in range(1 + h % 3)]
@@ -1044,9 +1092,14 @@ def c11(tier):
         for a in acs:
             pool += other_format_frames(a, rng) + valid_value_frames(a, rng)
         lines = [rng.choice(pool) for _ in range(rng.randrange(5, 40))]
+        if h % 3 == 2:                                  # unbroken blocks of extended squitters of several aircraft
+            lines = [l for l in lines if l[0] == '8'] or lines
         for j in range(len(lines) - 1):
-            if rng.random() < 0.15:
+            r_ = rng.random()
+            if r_ < 0.12:
                 lines[j + 1] = lines[j]
+            elif r_ < 0.3 and j >= 3:
+                lines[j + 1] = lines[j - rng.randrange(1, 4)]      # F, G, F: an identical frame a few lines later
         g = [reset(opts, slot=0), reset(opts, slot=1)] + [run1(l, slot=0) for l in lines] + [runn(lines, slot=1, tag={'pair': 'seg'})]
         groups.append(g)
     conform(rep, 'C11', groups, maxlen=4000)
@@ -1139,13 +1192,23 @@ def c12(tier):
         lv = leaves(scs)
         rep.extra.setdefault('model_leaf_scenarios', 0)
         rep.extra['model_leaf_scenarios'] += len(lv)
+        # display options must not matter for expiry: alternate quiet / non-quiet with a refresh per frame / counters
+        variants = [[], ['-U'], ['-i', 'e', '--update=-1'], ['-U', '-i', 'aA', '-u', '0', '-c']]
         for i, sc in enumerate(sorted(lv)):
-            groups.append(runs_of_scenario(sc, alpha, ['-d', str(D)] + (['-U'] if i % 2 else [])))
+            if tier == 'quick' and i % 2:
+                continue
+            g = runs_of_scenario(sc, alpha, ['-d', str(D)])
+            v = variants[(i // 2) % len(variants)]
+            g[0] = {'c': 'reset', 'opts': (['-i', 'Q'] if '-i' not in v else []) + ['-d', str(D)] + v, 'slot': 0}
+            groups.append(g)
     # random schedules: every format as the refreshing frame, delete_after in {1,5,60,600,86400}
     nr = 40 if tier == 'quick' else 1500
     for h in range(nr):
         D = rng.choice([1, 5, 60, 600] + ([86400] if tier == 'thorough' else []))
-        opts = ['-d', str(D)] + (['-U'] if h % 2 else []) + (['-R'] if h % 3 == 0 else [])
+        if h % 10 == 9:
+            D = rng.choice([9999999999999, 9223372036854775807, 100000000000000])     # "never expire"
+        opts = ['-d', str(D)] + (['-U'] if h % 2 else []) + (['-R'] if h % 3 == 0 else []) + \
+               (['-i', 'e', '--update=-1'] if h % 4 == 1 else (['-i', 'w', '-u', '0', '-c'] if h % 4 == 2 else []))
         acs = [0x4c0000 + rng.getrandbits(10) for _ in range(rng.randrange(2, 5))]
         pools = {a: other_format_frames(a, rng) for a in acs}
         g = [reset(opts)]
@@ -1154,7 +1217,10 @@ def c12(tier):
             focus = rng.sample(acs, rng.randrange(1, len(acs) + 1))
             lines = [rng.choice(pools[rng.choice(focus)]) for _ in range(n)]
             g.append(runn(lines))
-            g.append(tick(rng.choice([0, (D - 1) * 1000, D * 1000 - 100, D * 1000, D * 1000 + 100, (D + 1) * 1000, 2 * D * 1000]) or 1))
+            Dt = min(D, 700)
+            g.append(tick(rng.choice([0, (Dt - 1) * 1000, Dt * 1000 - 100, Dt * 1000, Dt * 1000 + 100, (Dt + 1) * 1000, 2 * Dt * 1000]) or 1))
+        if '-i' in opts:
+            g[0] = {'c': 'reset', 'opts': opts, 'slot': 0}
         groups.append(g)
     binary = vlib.build_harness('release')
     rt = realtime_crosscheck(binary)
@@ -1243,6 +1309,16 @@ def c16(tier):
         for _ in range(40 if tier == 'quick' else 200):
             g.append(run1(rng.choice(pool)))
         groups.append(g)
+    for k in range(6 if tier == 'quick' else 60):
+        a_, b_ = 0x4d1800 + k, 0x4d1900 + k
+        fl = rng.choice([[17], [4, 17], [11]])
+        opts = []
+        for d in fl:
+            opts += ['-f', str(d)]
+        keep = df17(5, a_, me_ident(4, 1, callsign_codes('KEEP'))) if 17 in fl else df11(5, a_)
+        others = [l for l in nine_frames(b_, rng) if (int(l[:2], 16) >> 3) not in fl]
+        g = [reset(opts + ['-d', '60'] + (['-U'] if k % 2 else [])), run1(keep), tick(120000), runn([rng.choice(others) for _ in range(40)])]
+        groups.append(g)
     conform(rep, 'C16', groups, maxlen=3000)
     # (c) the CLI with -c: counter line and table of the last refresh
     events = []
@@ -1260,6 +1336,8 @@ def c16(tier):
                 for a in acs:
                     pool += nine_frames(a, rng)
                 pool += nine_frames(0, rng) + [F.flip(df17(5, acs[0], me_opstatus(1)), [50]), 'zz', '8D', df11(5, acs[1], 5)[:13]]
+                for dfx in (24, 25, 30, 31, 19, 22):    # other 112-bit formats: counted under their own DF number
+                    pool.append(hexs(pack([(dfx, 5), (rng.getrandbits(3), 3), (acs[2], 24)]) + bits_of(rng.getrandbits(80), 80)))
                 lines = [list(rng.choice(pool).encode()) for _ in range(rng.randrange(5, 60 if tier == 'quick' else 400))]
                 events.append(cli_event(binary, prof, opts, lines, len(events) + 1))
     tr = os.path.join(vlib.workdir(), 'c16cli.trace.ndjson')
@@ -1395,6 +1473,44 @@ def cli_table_events(rng, n, orders):
     return events
 
 
+
+def cli_pair_events(rng, n):
+    """two runs of the real binary on the same input whose option sets differ in one option (separate processes: the
+    observer and the logger are process-global); last refresh of each"""
+    binary = vlib.build_cli('release')
+    wd = vlib.workdir()
+    events = []
+    variants = [('O', ['--observer-coord=52.0,-8.0'], ['--observer-coord=35.7,139.7']),
+                ('O', ['--observer-coord=-33.9,151.2'], ['--observer-coord=64.1,-21.9']),
+                ('l', [], ['-l', os.path.join(wd, 'err.log'), '-M', '17', '-M', '4']),
+                ('M', [], ['-M', '17', '-M', '20']),
+                ('D', [], ['-D', os.path.join(wd, 'dl.log')]),
+                ('c', [], ['-c'])]
+    for k in range(n):
+        name, oa, ob = variants[k % len(variants)]
+        base = rng.choice([[], ['-U'], ['-R']]) + ['-i', rng.choice(['aAews', 'e', 'A'])]
+        pool = []
+        for a in [0x484000 + rng.getrandbits(10) for _ in range(3)]:
+            pool += other_format_frames(a, rng) + valid_value_frames(a, rng)
+            lat, lon = rng.uniform(-60, 60), rng.uniform(-170, 170)
+            for odd in (0, 1, 0):
+                y, x = cpr_encode(lat, lon, odd)
+                pool.append(df17(5, a, me_surface(7, 20, 1, 40, odd, y or 1, x or 1)))
+        lines = [rng.choice(pool) for _ in range(rng.randrange(20, 80))]
+        data = ''.join(l + '\n' for l in lines).encode()
+        ra = cli.run_cli(binary, base + oa + ['--update=-1'], data=data, timeout=60)
+        rb = cli.run_cli(binary, base + ob + ['--update=-1'], data=data, timeout=60)
+        sa = [x for x in cli.snapshots(ra['out']) if 'rows' in x]
+        sb = [x for x in cli.snapshots(rb['out']) if 'rows' in x]
+        if not sa or not sb:
+            raise ToolError('CLI pair produced no refresh (codes %s %s)' % (ra['code'], rb['code']))
+        events.append({'e': 'clipair', 'i': len(events) + 1, 'opt': name, 'optsA': base + oa, 'optsB': base + ob,
+                       'lines': [list(l.encode()) for l in lines], 'codeA': ra['code'], 'codeB': rb['code'],
+                       'headerA': cli.cps(sa[-1]['header']), 'sepA': cli.cps(sa[-1]['sep']), 'rowsA': [cli.cps(x) for x in sa[-1]['rows']],
+                       'headerB': cli.cps(sb[-1]['header']), 'sepB': cli.cps(sb[-1]['sep']), 'rowsB': [cli.cps(x) for x in sb[-1]['rows']]})
+    return events
+
+
 def all_flagsets():
     out = []
     for m in range(32):
@@ -1522,7 +1638,8 @@ def c18(tier):
                      'ConnKeepsTable, NoLoss, PauseRespected (safety) and Recovers (liveness under weak fairness)')
     binary = vlib.build_cli('release')
     if tier == 'quick':
-        seqs = [('refuse',), ('close',), ('frames', 'partial'), ('junk', 'refuse'), ('partial', 'frames'), ('frames', 'close', 'junk')]
+        seqs = [('refuse',), ('close',), ('frames', 'partial'), ('junk', 'refuse'), ('partial', 'frames'), ('frames', 'close', 'junk'),
+                ('refuse', 'refuse'), ('partial', 'partial', 'junk')]
     else:
         seqs = [s for n in (1, 2, 3) for s in itertools.product(tcp.FAULTS, repeat=n)]
     events = []
@@ -1700,6 +1817,32 @@ def c13(tier):
             dirty.insert(p_, j)
         tag = {'pair': 'c13'}
         groups.append([reset(opts, slot=0), reset(opts, slot=1), runn(dirty, slot=0, tag=tag), runn(clean, slot=1, tag=tag)])
+    # a stale aircraft in the table while junk flows: junk must not move the sweep
+    for k in range(10 if tier == 'quick' else 200):
+        D = rng.choice([0, 1, 60])
+        opts = ['-d', str(D)] + (['-U'] if k % 2 else [])
+        a_old, a_new = 0x4ca200 + k, 0x4ca600 + k
+        pool = other_format_frames(a_new, rng) + other_format_frames(a_new + 0x100, rng)
+        clean = [list(rng.choice(pool).encode()) for _ in range(rng.randrange(3, 12))]
+        dirty = list(clean)
+        for _ in range(rng.randrange(8, 30)):
+            dirty.insert(rng.randrange(len(dirty) + 1), rng.choice(J[:24]))
+        tag = {'pair': 'c13'}
+        pre = [run1(df17(5, a_old, me_ident(4, 1, callsign_codes('OLD%d' % k))), slot=0), run1(df17(5, a_old, me_ident(4, 1, callsign_codes('OLD%d' % k))), slot=1),
+               tick((D + 1) * 1000)]
+        groups.append([reset(opts, slot=0), reset(opts, slot=1)] + pre + [runn(dirty, slot=0, tag=tag), runn(clean, slot=1, tag=tag)])
+    # a frame split over two lines, the second one carrying a byte that is not valid UTF-8: both stay rejected
+    for k in range(12 if tier == 'quick' else 200):
+        fr = rng.choice(other_format_frames(0x4ca900 + k, rng))
+        cut = rng.randrange(2, len(fr) - 2)
+        p1, p2 = list(fr[:cut].encode()), [rng.choice([0xff, 0x80, 0xc3])] + list(fr[cut:].encode())
+        other = [list(x.encode()) for x in other_format_frames(0x4caa00 + k, rng)[:4]]
+        clean = other
+        dirty = [other[0], p1, p2, other[1], p1, [0xfe] + p2, other[2], other[3]]
+        tag = {'pair': 'c13'}
+        groups.append([reset([], slot=0), reset([], slot=1), runn(dirty, slot=0, tag=tag), runn(clean, slot=1, tag=tag)])
+        groups.append([reset([], slot=0), reset([], slot=1), {'c': 'run', 'lines': dirty[:3], 'slot': 0, 'noeol': True, 'tag': tag},
+                       {'c': 'run', 'lines': clean[:1], 'slot': 1, 'noeol': True, 'tag': tag}])
     good_lines = [list(l.encode()) for l in other_format_frames(0x4ca111, rng)[:6]]
     for j in J[24:]:
         clean = good_lines[:3]
@@ -1804,6 +1947,11 @@ def c19(tier):
             g += [run1(l, slot=0, tag=tag), run1(l, slot=1, tag=tag)]
         groups.append(g)
     conform(rep, 'C19', groups, maxlen=3000)
+    evs = cli_pair_events(rng, 6 if tier == 'quick' else 120)
+    trc = os.path.join(vlib.workdir(), 'c19cli.trace.ndjson')
+    vlib.write_ndjson(trc, evs)
+    rep.add_validation(vlib.validate([trc], 'C19'), key_fn=lambda e: (e['opt'], tuple(map(tuple, e['lines'][:5]))))
+    rep.extra['cli_pairs'] = len(evs)
     rep.rule = ('paired executions of the same history in two tables whose option sets differ in one named option: -i (3 variants incl. '
                 'non-quiet), -o, -c, -u (0, -1, 1000), -M, -D (full rows compared after every line, stamps excluded), -O (all but the distance), '
                 'and -U on %d random histories of valid-value DF4/5/11/17 frames for 1..3 aircraft with clock steps (the nine listed '
